@@ -97,6 +97,15 @@ func genRestr(r *rand.Rand, m *Model, t, rel string, conds []string) []Restr {
 		add(Restr{T: "user"})
 		add(Restr{T: "user", Cond: pick(r, conds)})
 	}
+	if chance(r, 0.12) && len(conds) > 0 { // same type, different kinds, a condition on one of them only
+		if chance(r, 0.5) {
+			add(Restr{T: "user", Cond: pick(r, conds)})
+			add(Restr{T: "user", WC: true})
+		} else {
+			add(Restr{T: "user", WC: true, Cond: pick(r, conds)})
+			add(Restr{T: "user"})
+		}
+	}
 	if len(out) == 0 {
 		add(Restr{T: "user"})
 	}
@@ -469,6 +478,20 @@ func GenTuples(r *rand.Rand, m *Model, opts GenOpts) []Tuple {
 
 func genInvalidTuple(r *rand.Rand, m *Model) Tuple {
 	def := m.Rels[r.Intn(len(m.Rels))]
+	if chance(r, 0.5) { // prefer a relation with a conditioned restriction: the condition cases below apply to it
+		var withCond []RelDef
+		for _, d := range m.Rels {
+			for _, x := range d.Restr {
+				if x.Cond != "" {
+					withCond = append(withCond, d)
+					break
+				}
+			}
+		}
+		if len(withCond) > 0 {
+			def = withCond[r.Intn(len(withCond))]
+		}
+	}
 	o := Obj{def.T, pick(r, IDs[def.T])}
 	t := Tuple{O: o, R: def.R}
 	switch r.Intn(6) {
@@ -489,6 +512,8 @@ func genInvalidTuple(r *rand.Rand, m *Model) Tuple {
 		for _, x := range def.Restr {
 			if x.Cond != "" && !x.WC {
 				t.U = Subj{x.T, pick(r, IDs[x.T]), x.Rel}
+			} else if x.Cond != "" && t.U.T == "" {
+				t.U = Subj{x.T, "*", ""}
 			}
 		}
 		if t.U.T == "" {
